@@ -30,8 +30,13 @@ Record env := {
   e_hint    : hint;          (* KIter only *)
   e_owning  : bool;          (* elements are owned by the iterator and have a destructor (KVec, KArray, owning KIter) *)
   e_mode    : mode;
-  e_crash   : option N       (* KIter: the k-th call (0-based) of the wrapped iterator's next() panics *)
+  e_crash   : option N;      (* KIter: the k-th call (0-based) of the wrapped iterator's next() panics *)
+  e_gap     : N -> bool      (* KIter: the k-th call (0-based) of the wrapped iterator's next() answers None
+                                although elements may remain (an iterator that is not fused) *)
 }.
+
+(** the wrapped iterator is fused: it answers None only when it is exhausted *)
+Definition fused (e : env) : Prop := forall k, e_gap e k = false.
 
 Definition is_known (k : kind) : bool := match k with KIter => false | _ => true end.
 
